@@ -74,3 +74,44 @@ Proof.
       rewrite app_assoc. split; [reflexivity | exact IH2].
 Qed.
 End FlatInv.
+
+(** Without set -e a flat body runs every line; its result list is the concatenation of the
+    lines' result vectors, in order. Hence (try_run_func) the status of a call of a function with
+    such a body is the LAST status of the LAST line -- whatever failed before. *)
+Section FlatAll.
+Variable W : Type.
+Variable run_line : W -> str -> W * list Z.
+Variable eoe : W -> bool.
+Variables (rif : ttree -> bool -> W -> outcome W) (rfor rwh : ttree -> W -> outcome W).
+Hypothesis off : forall w, eoe w = false.
+
+Fixpoint run_all (lines : list str) (w : W) : W * list Z :=
+  match lines with
+  | [] => (w, [])
+  | l :: r => let '(w1, crs) := run_line w l in let '(w2, crs2) := run_all r w1 in (w2, crs ++ crs2)
+  end.
+
+Theorem flat_all : forall lines, forallb wf_line lines = true -> forall w acc,
+  exp_loop W run_line eoe rif rfor rwh false (map cmd_node lines) w acc =
+  let '(w1, crs) := run_all lines w in Done w1 (acc ++ crs) false false.
+Proof.
+  induction lines as [|l r IH]; intros Hwf w acc.
+  - cbn. rewrite app_nil_r. reflexivity.
+  - cbn [forallb] in Hwf. apply andb_prop in Hwf as [Hl Hr].
+    unfold wf_line in Hl. apply andb_prop in Hl as [Hl H3]. apply andb_prop in Hl as [H1 H2].
+    apply negb_true_iff in H1, H2, H3.
+    cbn [map exp_loop cmd_node t_txt t_rule run_all].
+    rewrite H1, H2, H3, N.eqb_refl.
+    destruct (run_line w l) as [w1 crs]. rewrite off, andb_false_r.
+    rewrite (IH Hr w1 (acc ++ crs)). destruct (run_all r w1) as [w2 crs2]. rewrite app_assoc. reflexivity.
+Qed.
+
+(** when every line yields exactly one status [st l] *)
+Lemma run_all_statuses (st : str -> Z) : (forall w l, snd (run_line w l) = [st l]) ->
+  forall lines w, snd (run_all lines w) = map st lines.
+Proof.
+  intros H. induction lines as [|l r IH]; intros w; [reflexivity|]. cbn [run_all map].
+  pose proof (H w l) as Hl. destruct (run_line w l) as [w1 crs]. cbn [snd] in Hl. subst crs.
+  pose proof (IH w1) as Hr. destruct (run_all r w1) as [w2 crs2]. cbn [snd] in *. rewrite Hr. reflexivity.
+Qed.
+End FlatAll.
